@@ -141,6 +141,27 @@ def literal_family():
     return out
 
 
+FLT_ENV_INEXACT = (0.1, 0.7, 1.1, 2.3)
+
+
+def rounding_family():
+    """Chains of two arithmetic operators with literals whose significands are not powers of two:
+    the trees on which a re-association, distribution or constant-folding rule changes the last bit
+    (evaluated on the inexact float environment)."""
+    lits = [ir.FloatLiteral(3.0), ir.FloatLiteral(7.0), ir.FloatLiteral(0.1), ir.IntegerLiteral(3), ir.IntegerLiteral(7)]
+    out = []
+    for c1 in lits:
+        for c2 in lits:
+            for o1 in ARITH:
+                for o2 in ARITH:
+                    out.append((o2(o1(XF, c1), c2), FLT))
+                    out.append((o2(c1, o1(XF, c2)), FLT))
+                    out.append((o2(o1(c1, XF), c2), FLT))
+                    out.append((o2(o1(XF, c1), o1(XF, c2)), FLT))
+                    out.append((o2(o1(c1, c2), XF), FLT))
+    return out
+
+
 def logic_family():
     """Depth-2 trees whose operators are comparisons / min / max / and / or / bool-to-int over a
     reduced leaf set (precedence of && over ||, nesting of comparisons inside logic)."""
@@ -317,11 +338,11 @@ def used_vars(node, acc=None):
     return acc
 
 
-def environments(vars_used, int_env=INT_ENV, all_vars=False):
+def environments(vars_used, int_env=INT_ENV, all_vars=False, flt_env=FLT_ENV):
     """Initial (a, v) arrays for every assignment of the used scalar variables."""
     xi_vals = int_env if (all_vars or "xi" in vars_used) else (1,)
     yi_vals = int_env if (all_vars or "yi" in vars_used) else (2,)
-    xf_vals = FLT_ENV if (all_vars or "xf" in vars_used) else (2.5,)
+    xf_vals = flt_env if (all_vars or "xf" in vars_used) else (2.5,)
     xb_vals = (0, 1) if (all_vars or "xb" in vars_used) else (1,)
     for xi, yi, xf, xb in itertools.product(xi_vals, yi_vals, xf_vals, xb_vals):
         yield [*A_INIT, xi, yi, xb, 0, 0], [*V_INIT, xf, 0.0]
